@@ -268,12 +268,25 @@ def setNext (s : St) : St :=
   if s.handles.length = 0 then { s with fault := some .panicRem }
   else { s with next := (s.next + 1) % s.handles.length }
 
+/-- `Vec::swap_remove(i)`: the last element takes the place of the removed one -/
+def swapRemove (l : List Nat) (i : Nat) : List Nat := (l.set i (l.getLast?.getD 0)).dropLast
+
 /-- `remove_next`: `swap_remove(self.next)`, report the fault, clear the bit -/
 def removeNext (s : St) (w : Nat) : St :=
   let idx := (s.wk w).idx
-  let last := s.handles.getLast?.getD 0
-  let hs := (s.handles.set s.next last).dropLast
-  setAvail { s with handles := hs, faultedLog := s.faultedLog ++ [idx] } idx false
+  setAvail { s with handles := swapRemove s.handles s.next, faultedLog := s.faultedLog ++ [idx] } idx false
+
+/-- the `Err(conn)` arm of `send_connection`: the worker is gone -/
+def sendFail (s : St) (w : Nat) (c : Conn) : St × Bool :=
+  let s1 := removeNext s w
+  if s1.handles.isEmpty then ({ s1 with dropped := s1.dropped ++ [c] }, true)
+  else if s1.handles.length ≤ s1.next then ({ s1 with next := 0 }, false)
+  else (s1, false)
+
+/-- `WakerInterest::Worker(handle)`: `set_available(handle.idx(), true); handles.push(handle)` -/
+def addWorker (s : St) (w : Nat) : St :=
+  let s2 := setAvail s (s.wk w).idx true
+  { s2 with handles := s2.handles ++ [w] }
 
 /-- `next.send(conn)` succeeded: the connection is in the worker's channel, the increment is outstanding -/
 def sendPrim (s : St) (w : Nat) (c : Conn) : St :=
@@ -293,11 +306,7 @@ def sendConnection (cfg : Cfg) (s : St) (c : Conn) : St × Bool :=
     if (s.wk w).alive then
       -- send, window W1 (yield point), inc, set_next
       (setNext (incPrim cfg (yieldPt cfg (sendPrim s w c)) w (s.wk w).idx), true)
-    else
-      let s1 := removeNext s w
-      if s1.handles.isEmpty then ({ s1 with dropped := s1.dropped ++ [c] }, true)
-      else if s1.handles.length ≤ s1.next then ({ s1 with next := 0 }, false)
-      else (s1, false)
+    else sendFail s w c
 
 /-- the `while let Err(c) = self.send_connection(conn)` loop of `accept_one` -/
 def forcedSend (cfg : Cfg) : Nat → St → Conn → St
@@ -399,8 +408,7 @@ def handleWaker (cfg : Cfg) : Nat → St → St × Bool
         let s3 := if !s2.paused then acceptAll cfg s2 else s2
         handleWaker cfg fuel s3
       | .worker w =>
-        let s2 := setAvail s1 (s1.wk w).idx true
-        let s3 := { s2 with handles := s2.handles ++ [w] }
+        let s3 := addWorker s1 w
         let s4 := if !s3.paused then acceptAll cfg s3 else s3
         handleWaker cfg fuel s4
       | .pause =>
